@@ -582,6 +582,24 @@ func c18CommandGoroutines(c *core.Ctx) {
 		{"log malformed on line 2, book malformed at its end", map[string]string{"food.yaml": book + "  broken\n", "log.yaml": "2021/01/23:\n  broken\n" + log}},
 		{"missing files", map[string]string{}},
 	}
+	// lint is the command that keeps consuming after a problem: what the parser reported before it gave up on the
+	// input (a line over the limit, a read error) is still shown
+	{
+		tail := map[string]string{"a line of 70000 bytes": "  # " + strings.Repeat("n", 70000) + "\n", "nothing (control)": ""}
+		for what, t := range tail {
+			text := "2021/01/24:\n  ok: 1\n  broken\n  also: 1,5\n\n2021/01/25:\n  x: abc\n" + t
+			srv.Write(map[string]string{"badlong.yaml": text})
+			res := srv.App1([]string{"--no-color", "lint", "badlong.yaml"}, nil)
+			c.Eval(1)
+			c.Count("lint_reports_before_unreadable_input", 1)
+			msgs := obsLines(res.Out)
+			okMsgs := len(msgs) >= 3 && strings.Contains(msgs[0], "line 3") && strings.Contains(msgs[1], "line 4") && strings.Contains(msgs[2], "line 7")
+			if !okMsgs || (t != "" && res.Exit == 0) {
+				c.Violation("lint|problems-lost-before-unreadable-input", fmt.Sprintf("three malformed lines followed by %s: lint prints %d lines %q, exit %d", what, len(msgs), clip(res.Out, 200), res.Exit),
+					caseDoc{Files: map[string]string{"badlong.yaml": clip(text, 300)}, Args: []string{"--no-color", "lint", "badlong.yaml"}, Note: "followed by " + what, Observed: map[string]any{"stdout": clip(res.Out, 600), "exit": res.Exit, "err": clip(res.Err, 200)}})
+			}
+		}
+	}
 	r := c.Rng("goroutines", 0)
 	cmds := [][]string{{"stats"}, {"reg"}, {"bal"}, {"csv", "log"}, {"csv", "database"}, {"csv", "database-resolved"}, {"print"}, {"summary", "2021/01/24"}, {"report", "totals"}, {"report", "quantity"}, {"report", "unresolved"}, {"report", "element-total", "x"}, {"lint", "log.yaml"}, {"lint", "food.yaml"}}
 	for k := 0; k < 8; k++ {
@@ -612,6 +630,16 @@ func c18CommandGoroutines(c *core.Ctx) {
 			}
 		}
 	}
+}
+
+func obsLines(out string) []string {
+	var ls []string
+	for _, l := range strings.Split(out, "\n") {
+		if strings.TrimSpace(l) != "" {
+			ls = append(ls, l)
+		}
+	}
+	return ls
 }
 
 func countPrefix(xs []string, p string) int {
